@@ -67,7 +67,25 @@ class Ctx:
             return True
         if project is not None and project(go) == project(lean):
             return True
+        if go.startswith("SKIP") and lean.startswith("SKIP"):
+            return True            # both sides decline the case (cyclic / too big); the reason text is not compared
+        if self._alias_sensitive(case, lean):
+            self.count("alias-sensitive(K1): not compared")
+            return True
         self.disagree(case, go, lean, what)
+        return False
+
+    def _alias_sensitive(self, case, lean):
+        """Finding K1 territory: the model's two machines (lists by value = the code's slice headers, lists by reference)
+        bracket what Go does when DUP / the memo copied a slice header — appends through the copies may or may not share the
+        backing array.  Where the two machines give different answers the implementation is compared with neither."""
+        for cmd, ref in (("dec ", "decref "), ("dech ", "dechref ")):
+            if case.startswith(cmd):
+                try:
+                    r = C.run_lean([ref + case[len(cmd):].split("   ")[0]])[0]
+                except Exception:
+                    return False
+                return r != lean
         return False
 
 
